@@ -274,12 +274,14 @@ impl<'a> Exec<'a> {
             Ok(a) => a,
             Err(e) => return self.on_matcher_err(h, "is_accepting", &e.to_string(), true),
         };
-        if bit(&mask, eos) != acc {
-            return Err(self.viol(
-                "eos_iff_accepting",
-                "eos_iff_accepting",
-                format!("h{h}: EOS in mask = {} but is_accepting = {acc}", bit(&mask, eos)),
-            ));
+        for e in self.ctx.world.eos_all() {
+            if bit(&mask, e) != acc {
+                return Err(self.viol(
+                    "eos_iff_accepting",
+                    "eos_iff_accepting",
+                    format!("h{h}: EOS token {e} in mask = {} but is_accepting = {acc}", bit(&mask, e)),
+                ));
+            }
         }
         let ff = if canonical {
             self.mh(h).compute_ff_tokens()
@@ -313,7 +315,7 @@ impl<'a> Exec<'a> {
             for _ in 0..sample {
                 v.push(rng.below(nv) as u32);
             }
-            v.push(eos);
+            v.extend(self.ctx.world.eos_all());
             v.sort();
             v.dedup();
             v
@@ -408,7 +410,7 @@ impl<'a> Exec<'a> {
                     _ => break,
                 };
                 toks.push(t);
-                if t == eos {
+                if self.ctx.world.is_eos(t) {
                     break; // EOS only as last element (scope note in DESIGN.md)
                 }
                 if scratch.consume_tokens(&[t]).is_err() {
@@ -666,8 +668,9 @@ impl<'a> Exec<'a> {
         let nv = self.ctx.n_vocab();
         let eos = self.ctx.world.eos();
         let hist = self.slots[&h].hist.clone();
+        let _ = eos;
         let (hist_noeos, had_eos) = match hist.last() {
-            Some(t) if *t == eos => (&hist[..hist.len() - 1], true),
+            Some(t) if self.ctx.world.is_eos(*t) => (&hist[..hist.len() - 1], true),
             _ => (&hist[..], false),
         };
         let bytes = match self.hist_bytes(hist_noeos) {
@@ -828,7 +831,8 @@ impl<'a> Exec<'a> {
         let nv = self.ctx.n_vocab();
         let eos = self.ctx.world.eos();
         let hist = self.slots[&h].hist.clone();
-        if hist.contains(&eos) {
+        if hist.iter().any(|t| self.ctx.world.is_eos(*t)) {
+            let _ = eos;
             return self.skip("eos_in_history");
         }
         let bytes = match self.hist_bytes(&hist) {
@@ -1062,6 +1066,7 @@ impl<'a> Exec<'a> {
                     }
                 };
                 if bit(&mask, eos) {
+                    // (the primary EOS stands for all of them: eos_iff_accepting checks each)
                     self.stats.probe("guided_completion_ok");
                     self.ev(format!("chk_complete h{h} ok"));
                     return Ok(());
@@ -1184,15 +1189,61 @@ impl<'a> Exec<'a> {
         if self.mh(h).is_stopped() {
             return self.skip("stopped");
         }
-        if self.ctx.tokref {
-            return self.skip("tokref_grammar");
-        }
         let hist = self.slots[&h].hist.clone();
+        let fb = match self.mh(h).compute_ff_bytes() {
+            Some(b) => b,
+            None => return self.skip("no_ff_bytes_api"),
+        };
+        // (i') token level, any grammar (also token references): every token the engine would accept
+        // next must be compatible with the forced bytes (one a prefix of the other); special tokens
+        // appear in forced text as \xFF[id]
+        if !fb.is_empty() {
+            let alt = self.slots[&h].alt;
+            let nv = self.ctx.n_vocab();
+            let mut r = MH::R(self.fresh_matcher(alt));
+            let fed = hist.is_empty() || r.consume_tokens(&hist).is_ok();
+            if fed && !r.is_stopped() {
+                for t in 0..nv as u32 {
+                    if self.ctx.world.is_eos(t) {
+                        continue;
+                    }
+                    if r.validate_tokens(&[t]).unwrap_or(0) != 1 {
+                        continue;
+                    }
+                    let tb: Vec<u8> = if self.ctx.is_special(t) {
+                        let mut x = vec![0xffu8];
+                        x.extend_from_slice(format!("[{t}]").as_bytes());
+                        x
+                    } else {
+                        self.ctx.tok_bytes(t).to_vec()
+                    };
+                    self.stats.tokens_checked += 1;
+                    if !(fb.starts_with(&tb) || tb.starts_with(&fb)) {
+                        return Err(self.viol(
+                            "forced_bytes_unique",
+                            "acceptable_token_contradicts_forced_bytes",
+                            format!(
+                                "h{h} after {:?}: forced bytes {:?}, but token {t} {:?} is acceptable too",
+                                hist,
+                                String::from_utf8_lossy(&fb),
+                                String::from_utf8_lossy(&tb)
+                            ),
+                        ));
+                    }
+                }
+                self.stats.probe("forced_bytes_token_level_checked");
+            }
+        }
+        if self.ctx.tokref {
+            self.stats.checks += 1;
+            self.ev(format!("chk_ff h{h} tokref fb={}", fb.len()));
+            return Ok(());
+        }
         let bytes = match self.hist_bytes(&hist) {
             Some(b) => b,
             None => return self.skip("special_in_history"),
         };
-        let fb = match self.mh(h).compute_ff_bytes() {
+        let fb = match Some(fb) {
             Some(b) => b,
             None => return self.skip("no_ff_bytes_api"),
         };
